@@ -1,11 +1,14 @@
 /* bounded models for U-shell-esc */
 #include <string.h>
 struct raw_ostream { char _e; };
+#ifndef VERIF_SHELL_MAXLEN
+#define VERIF_SHELL_MAXLEN 3
+#endif
 char g_out[32]; size_t g_outlen;
 static inline size_t strref_size(const strref *s) { return s->len; }
-static inline strref strref_of_lit(const char *p) { strref r; r.ptr = p; r.len = 0; while (p[r.len]) r.len++; return r; }
-static inline vstr vstr_lit(const char *p) { vstr v; v.ptr = (char *)p; v.len = 0; while (p[v.len]) v.len++; v.cap = v.len; return v; }
-static inline _Bool in_set(char c, strref set) { for (size_t i = 0; i < set.len; i++) if (set.ptr[i] == c) return 1; return 0; }
+static inline vstr vstr_lit1(const char *p, size_t n) { vstr v; v.ptr = (char *)p; v.len = n; v.cap = n; return v; }
+/* membership in a literal set of at most 80 bytes, loop-free */
+static inline _Bool in_set(char c, strref set) { __CPROVER_assert(set.len <= 80, "model: character sets of at most 80 bytes"); return (0 < set.len && set.ptr[0] == c) || (1 < set.len && set.ptr[1] == c) || (2 < set.len && set.ptr[2] == c) || (3 < set.len && set.ptr[3] == c) || (4 < set.len && set.ptr[4] == c) || (5 < set.len && set.ptr[5] == c) || (6 < set.len && set.ptr[6] == c) || (7 < set.len && set.ptr[7] == c) || (8 < set.len && set.ptr[8] == c) || (9 < set.len && set.ptr[9] == c) || (10 < set.len && set.ptr[10] == c) || (11 < set.len && set.ptr[11] == c) || (12 < set.len && set.ptr[12] == c) || (13 < set.len && set.ptr[13] == c) || (14 < set.len && set.ptr[14] == c) || (15 < set.len && set.ptr[15] == c) || (16 < set.len && set.ptr[16] == c) || (17 < set.len && set.ptr[17] == c) || (18 < set.len && set.ptr[18] == c) || (19 < set.len && set.ptr[19] == c) || (20 < set.len && set.ptr[20] == c) || (21 < set.len && set.ptr[21] == c) || (22 < set.len && set.ptr[22] == c) || (23 < set.len && set.ptr[23] == c) || (24 < set.len && set.ptr[24] == c) || (25 < set.len && set.ptr[25] == c) || (26 < set.len && set.ptr[26] == c) || (27 < set.len && set.ptr[27] == c) || (28 < set.len && set.ptr[28] == c) || (29 < set.len && set.ptr[29] == c) || (30 < set.len && set.ptr[30] == c) || (31 < set.len && set.ptr[31] == c) || (32 < set.len && set.ptr[32] == c) || (33 < set.len && set.ptr[33] == c) || (34 < set.len && set.ptr[34] == c) || (35 < set.len && set.ptr[35] == c) || (36 < set.len && set.ptr[36] == c) || (37 < set.len && set.ptr[37] == c) || (38 < set.len && set.ptr[38] == c) || (39 < set.len && set.ptr[39] == c) || (40 < set.len && set.ptr[40] == c) || (41 < set.len && set.ptr[41] == c) || (42 < set.len && set.ptr[42] == c) || (43 < set.len && set.ptr[43] == c) || (44 < set.len && set.ptr[44] == c) || (45 < set.len && set.ptr[45] == c) || (46 < set.len && set.ptr[46] == c) || (47 < set.len && set.ptr[47] == c) || (48 < set.len && set.ptr[48] == c) || (49 < set.len && set.ptr[49] == c) || (50 < set.len && set.ptr[50] == c) || (51 < set.len && set.ptr[51] == c) || (52 < set.len && set.ptr[52] == c) || (53 < set.len && set.ptr[53] == c) || (54 < set.len && set.ptr[54] == c) || (55 < set.len && set.ptr[55] == c) || (56 < set.len && set.ptr[56] == c) || (57 < set.len && set.ptr[57] == c) || (58 < set.len && set.ptr[58] == c) || (59 < set.len && set.ptr[59] == c) || (60 < set.len && set.ptr[60] == c) || (61 < set.len && set.ptr[61] == c) || (62 < set.len && set.ptr[62] == c) || (63 < set.len && set.ptr[63] == c) || (64 < set.len && set.ptr[64] == c) || (65 < set.len && set.ptr[65] == c) || (66 < set.len && set.ptr[66] == c) || (67 < set.len && set.ptr[67] == c) || (68 < set.len && set.ptr[68] == c) || (69 < set.len && set.ptr[69] == c) || (70 < set.len && set.ptr[70] == c) || (71 < set.len && set.ptr[71] == c) || (72 < set.len && set.ptr[72] == c) || (73 < set.len && set.ptr[73] == c) || (74 < set.len && set.ptr[74] == c) || (75 < set.len && set.ptr[75] == c) || (76 < set.len && set.ptr[76] == c) || (77 < set.len && set.ptr[77] == c) || (78 < set.len && set.ptr[78] == c) || (79 < set.len && set.ptr[79] == c); }
 static inline size_t strref_find_first_not_of(const strref *s, strref set) { for (size_t i = 0; i < s->len; i++) if (!in_set(s->ptr[i], set)) return i; return (size_t)-1; }
 static inline size_t strref_find_first_of(const strref *s, strref set, size_t from) { for (size_t i = from; i < s->len; i++) if (in_set(s->ptr[i], set)) return i; return (size_t)-1; }
 static inline strref strref_slice(const strref *s, size_t a, size_t b) { strref r; if (a > s->len) a = s->len; if (b > s->len) b = s->len; if (b < a) b = a; r.ptr = s->ptr + a; r.len = b - a; return r; }
@@ -24,21 +27,16 @@ static inline _Bool sh_unquoted_ok(char c, _Bool at_start) {
   return 0;                                /* everything else (blank, quote, $, `, ~, glob and control characters, bytes >= 0x80) must be quoted */
 }
 static inline _Bool verif_sh_yields(strref in) {
-  size_t i = 0, n = 0;
-  while (i < g_outlen) {
+  /* one pass, explicit state: 0 unquoted, 1 inside single quotes, 2 after a backslash */
+  size_t n = 0; int st = 0;
+  for (size_t i = 0; i < 32; i++) {
+    if (i >= g_outlen) break;
     char c = g_out[i];
-    if (c == '\'') {
-      i++;
-      while (i < g_outlen && g_out[i] != '\'') { if (n >= in.len || in.ptr[n] != g_out[i]) return 0; n++; i++; }
-      if (i == g_outlen) return 0;
-      i++;
-    } else if (c == '\\') {
-      i++; if (i == g_outlen) return 0;
-      if (n >= in.len || in.ptr[n] != g_out[i]) return 0; n++; i++;
-    } else {
-      if (!sh_unquoted_ok(c, i == 0)) return 0;
-      if (n >= in.len || in.ptr[n] != c) return 0; n++; i++;
-    }
+    if (st == 1) { if (c == '\'') st = 0; else { if (n >= in.len || in.ptr[n] != c) return 0; n++; } }
+    else if (st == 2) { if (n >= in.len || in.ptr[n] != c) return 0; n++; st = 0; }
+    else if (c == '\'') st = 1;
+    else if (c == '\\') st = 2;
+    else { if (!sh_unquoted_ok(c, i == 0)) return 0; if (n >= in.len || in.ptr[n] != c) return 0; n++; }
   }
-  return n == in.len && g_outlen > 0;
+  return st == 0 && n == in.len && g_outlen > 0;
 }
